@@ -182,6 +182,9 @@ def random_config(r, max_text=40, max_hits=14, n_texts=6, self_repro=False):
             a0 = r.randint(max(s0, e0 - 20), e0 - 1)
             b0 = r.randint(a0 + 1, e0)
             tables[r.randrange(ndec)].setdefault(text, []).append(("tail", text[a0:b0], "", a0, b0, ()))
+    if r.random() < 0.12:
+        # a registry may list the same decoder object more than once (merged registries): it is applied once per listing
+        tables.insert(r.randrange(len(tables) + 1), r.choice(tables))
     if self_repro:
         # every decoded value can be decoded again, forever
         d = tables[0]
@@ -207,10 +210,13 @@ def engine_registry(tables, appendix=None):
         return Node(spec[0], spec[1], spec[2], spec[3], spec[4], children=kids if kids else None)
 
     out = []
+    made = {}
     for t in tables:
-        def dec(data, t=t):
-            return [build(s) for s in t.get(bytes(data), [])]
-        out.append(dec)
+        if id(t) not in made:
+            def dec(data, t=t):
+                return [build(s) for s in t.get(bytes(data), [])]
+            made[id(t)] = dec
+        out.append(made[id(t)])  # the same table twice -> the very same callable twice
     return out
 
 
@@ -223,10 +229,23 @@ def spec_in_bounds(spec, n) -> bool:
 def encode_tables(tables):
     def enc(s):
         return [s[0], s[1].hex(), s[2], s[3], s[4], [enc(k) for k in s[5]]]
-    return [{k.hex(): [enc(h) for h in v] for k, v in t.items()} for t in tables]
+    out, first = [], {}
+    for i, t in enumerate(tables):
+        if id(t) in first:
+            out.append({"same_as": first[id(t)]})  # the same decoder object listed again
+        else:
+            first[id(t)] = i
+            out.append({k.hex(): [enc(h) for h in v] for k, v in t.items()})
+    return out
 
 
 def decode_tables(j):
     def dec(s):
         return (s[0], bytes.fromhex(s[1]), s[2], s[3], s[4], tuple(dec(k) for k in s[5]))
-    return [{bytes.fromhex(k): [dec(h) for h in v] for k, v in t.items()} for t in j]
+    out = []
+    for t in j:
+        if "same_as" in t:
+            out.append(out[t["same_as"]])
+        else:
+            out.append({bytes.fromhex(k): [dec(h) for h in v] for k, v in t.items()})
+    return out
